@@ -380,7 +380,9 @@ def _compare_read(ctx, f, r, rep, inst, labelclass=None):
     lr = None if r.vdims is None else [str(x) for x in r.vdims]
     if lf != lr:
         cls = labelclass or ("scalar-with-label" if f.nvdim == 1 else "vector")
-        ctx.fail(f"{what}/labels/{cls}", f"labels {lf} read back as {lr}", instance=inst)
+        # the label classes are decided by the labels alone: key the instance on them (stable known-finding key)
+        ctx.fail(f"{what}/labels/{cls}", f"labels {lf} read back as {lr}",
+                 instance=(f"nvdim={f.nvdim};labels={lf};read={lr}" if cls != "vector" else inst))
     sf, sr = _subs(f.mesh), _subs(r.mesh)
     if set(sf) != set(sr) or any(not (_close(sr[k][0], sf[k][0], rel) and _close(sr[k][1], sf[k][1], rel)) for k in sf):
         ctx.fail(f"{what}/subregions", f"subregions {sorted(sf)} read back as "
@@ -418,8 +420,10 @@ def unit_roundtrip(ctx):
         if raised:
             cls = ("txt" if rep == "txt" else "exact") + ("+subregions" if sub != "none" else "")
             ctx.note("read-raises:" + type(r).__name__)
+            # whether the reload of the side-car fails depends on the geometry and the layout only
             ctx.fail(f"vtk-roundtrip/read-raises/{cls}", f"file written by to_file({rep}) cannot be read: "
-                     f"{type(r).__name__}: {r}", instance=inst)
+                     f"{type(r).__name__}: {r}",
+                     instance=(ctx.key(drop=("nvdim", "labels", "mask", "values")) if cls == "txt+subregions" else inst))
             return
         _compare_read(ctx, f, r, rep, inst)
     finally:
